@@ -4,6 +4,7 @@ Helper lemmas for the FFSP model (`Rl4co/Env/Ffsp.lean`): well-formedness, index
 preservation by every piece of `_step`.  No Mathlib.
 -/
 import Rl4co.Env.Ffsp
+import Rl4co.Proofs.FfspParams
 import Rl4co.Spec.Ffsp
 namespace Rl4co.Ffsp
 
